@@ -82,9 +82,15 @@ def bitor_cases(chk, st):
         chk.violation("bitor-corr", "correspondence broken on PostAction | / |= although every pair satisfies the rule\n%s\n%s" % (impl, model), nofail=True)
 
 
+def oracle_all(text, trace):
+    """the registration-call oracle above plus the C09 rules of the shared trace walker (py/oracles.py)"""
+    import oracles
+    return oracle(text, trace) + oracles.oracle_for(["C09"])(text, trace)
+
+
 def main(tier, seed):
     return seqcheck.run_seq_check(
-        "C09", tier, seed, [(3, PROFILE), (1, {})], oracle, 1500, 40000,
+        "C09", tier, seed, [(3, PROFILE), (1, {})], oracle_all, 1500, 40000,
         ["scenario language of DESIGN.md 2.3: sources = composite of Generic<eventfd>, PingSource, Timer, Channel",
          "epoll/eventfd/BinaryHeap behaviour is the environment model of Env.v (validated by the same runs)",
          "the oracle sees (re/un)registration calls only of the instrumented composite sources"],
@@ -92,4 +98,4 @@ def main(tier, seed):
 
 
 def replay(path):
-    return seqcheck.replay("C09", path, oracle)
+    return seqcheck.replay("C09", path, oracle_all)
